@@ -53,7 +53,9 @@ theorem read_your_writes (P : Params V) (d0 : Doc V) (chain0) (hb : BaseOK d0 ch
     · exact hr
   · exact hr
 
-/-- **C09, D22**: `update` and `fulfil` hand back the very reference they were given. -/
+/-- **C09, D22**: when `update` / `fulfil` hand back a reference, its *number* is the number they were given (the
+    statement is about the number only; that the generation is the one of the table entry, or 0 for a compressed or
+    promised one, is in the model's `update` and is compared by the correspondence `c09.hist`). -/
 theorem update_keeps_reference (P : Params V) (d : Doc V) (id : Nat) (v : V) (i g : Nat)
     (h : (step P d (.update id v)).2 = .ref i g ∨ (step P d (.fulfil id v)).2 = .ref i g) : i = id := by
   rw [step_fulfil_eq, or_self] at h
@@ -107,8 +109,9 @@ theorem reload_sees_saved (P : Params V) (d0 : Doc V) (chain0) (hb : BaseOK d0 c
       rw [pf.ch_sub sid (hlt sid hsid)]
       exact hm.untouched sid (hcont sid idx he) hsid
 
-/-- `save` never writes a table the reader would refuse (more than `MAX_ID` = 1 000 000 numbers): it
-    fails instead, leaving the document as it was (D46). -/
+/-- a *successful* `save` has written a `/Size` within the reader's limit (`MAX_ID` = 1 000 000) — what the statement
+    says. That a save over the limit fails and leaves the document as it was (D46) is `Storage.save_too_big`
+    (Lemmas/StorageSave.lean: `MAX_ID < refs.length + 2 → save P L d = (d, .err)`), not this theorem. -/
 theorem save_respects_reader_limit (P : Params V) (L : Layout) (d d' : Doc V) (i : SaveInfo)
     (hs : save P L d = (d', .ok i)) : i.size ≤ MAX_ID ∧ d.st.refs.length + 2 ≤ MAX_ID := by
   obtain ⟨_, _, _, _, _, _, _, _, h3, _, h5⟩ := save_ok_spec P L d d' i hs
@@ -136,7 +139,10 @@ theorem history_prefix_preserved (P : Params V) (d : Doc V) (ops : List (Op V)) 
 /-- **C09, "a save that fails and is retried after the offending object is replaced"**: for a document
     reached by any history (failed saves included), `save` succeeds as soon as every pending value is
     serialisable, no promise is open, the catalog resolves and the table is within the reader's limit —
-    the failed attempts leave nothing behind that could stop it — and the reload theorem applies. -/
+    the failed attempts leave nothing behind that could stop it — and the reload theorem applies.
+    Hypothesis `ht : L.typed = true`: the typed reload of the trailer at the end of this save succeeds (the catalog loads as
+    a catalog: an input of the model, see `Layout.typed`); without it the save fails after writing
+    (`late_failure_keeps_revision`). `Savable` is the conjunction named above. -/
 theorem save_retry_after_failure (P : Params V) (d0 : Doc V) (chain0) (hb : BaseOK d0 chain0) (ops : List (Op V))
     (hops : HistOK ops) (L : Layout) (hL : L.Pos) (ht : L.typed = true) (hsv : Savable P (run P d0 ops).1)
     (hsize : (run P d0 ops).1.st.refs.length + 2 ≤ MAX_ID) (c : Bool) :
@@ -147,8 +153,12 @@ theorem save_retry_after_failure (P : Params V) (d0 : Doc V) (chain0) (hb : Base
   obtain ⟨dr, h1, _, h2, _⟩ := reload_sees_saved P d0 chain0 hb ops hops L hL d' i hs c
   exact ⟨d', i, dr, hs, h1, h2⟩
 
-/-- a failed save is invisible to the caller: it is an `err`, never a panic, and the abstract map is what
-    it was (so by `read_your_writes` / `untouched_reads_unchanged` every read is what it was) -/
+/-- a save is an `ok` or an `err`, never a panic (first conjunct: this is the content, through `inv_save`). The second
+    conjunct — the abstract map after `ops ++ [save]` is the map after `ops` — holds *by construction* of the
+    specification (`specStep` records writes of `create / update / fulfil` only and ignores `save`; it needs none of the
+    hypotheses). What makes a failed save invisible is that `read_your_writes` and `untouched_reads_unchanged` hold for the
+    history *including* the failed save (they are stated for every history): every written reference still reads its last
+    value, every untouched number what it read before. -/
 theorem failed_save_is_clean (P : Params V) (d0 : Doc V) (chain0) (hb : BaseOK d0 chain0) (ops : List (Op V))
     (hops : HistOK ops) (L : Layout) (hL : L.Pos) :
     ((∃ i, (save P L (run P d0 ops).1).2 = .ok i) ∨ (save P L (run P d0 ops).1).2 = .err) ∧
@@ -239,18 +249,21 @@ theorem late_failure_keeps_revision (P : Params V) (d0 : Doc V) (chain0) (hb : B
     anything else), then a save under which the typed trailer loads again. It succeeds as soon as the document is
     savable; the reload of its output sees every write of the whole history (before and after the failed save) at its
     last value; and the backend of the failed save — previous revisions *and* the revision the failed save left
-    behind — is an unmodified prefix of the output. -/
+    behind — is an unmodified prefix of the output; the failed save (hypotheses `hc`, `hfail`: it wrote its revision and
+    did not return `Ok`) really did lengthen the backend, so the output is longer than the file before it by more than the
+    last revision. -/
 theorem save_retry_after_late_failure (P : Params V) (d0 : Doc V) (chain0) (hb : BaseOK d0 chain0) (ops : List (Op V))
     (hops : HistOK ops) (L : Layout) (hL : L.Pos) (i : SaveInfo)
-    (_hc : commitInfo P L (run P d0 ops).1 = some i)
-    (_hfail : ∀ i', (save P L (run P d0 ops).1).2 ≠ .ok i')
+    (hc : commitInfo P L (run P d0 ops).1 = some i)
+    (hfail : ∀ i', (save P L (run P d0 ops).1).2 ≠ .ok i')
     (ops' : List (Op V)) (hops' : HistOK ops') (L' : Layout) (hL' : L'.Pos) (ht' : L'.typed = true)
     (hsv : Savable P (run P d0 (ops ++ [.save L] ++ ops')).1)
     (hsize : (run P d0 (ops ++ [.save L] ++ ops')).1.st.refs.length + 2 ≤ MAX_ID) (c : Bool) :
     ∃ d' i' dr, save P L' (run P d0 (ops ++ [.save L] ++ ops')).1 = (d', .ok i') ∧ reload d'.st c = .ok dr ∧
       (∀ id v, specRun AMap.empty (ops ++ [.save L] ++ ops') (run P d0 (ops ++ [.save L] ++ ops')).2 id = some v →
         resolve dr.st id = .val v) ∧
-      Extends (save P L (run P d0 ops).1).1.st d'.st := by
+      Extends (save P L (run P d0 ops).1).1.st d'.st ∧
+      (run P d0 ops).1.st.len < (save P L (run P d0 ops).1).1.st.len ∧ (run P d0 ops).1.st.len < d'.st.len := by
   have hall : HistOK (ops ++ [.save L] ++ ops') := by
     intro op hop
     simp only [List.mem_append, List.mem_singleton] at hop
@@ -259,7 +272,9 @@ theorem save_retry_after_late_failure (P : Params V) (d0 : Doc V) (chain0) (hb :
     · exact hL
     · exact hops' op hop
   obtain ⟨d', i', dr, h1, h2, h3⟩ := save_retry_after_failure P d0 chain0 hb _ hall L' hL' ht' hsv hsize c
-  refine ⟨d', i', dr, h1, h2, h3, ?_⟩
+  obtain ⟨_, _, _, hlate, _, _⟩ := late_failure_keeps_revision P d0 chain0 hb ops hops L hL i hc hfail
+  suffices hext : Extends (save P L (run P d0 ops).1).1.st d'.st from
+    ⟨d', i', dr, h1, h2, h3, hext, hlate, Nat.lt_of_lt_of_le hlate hext.len⟩
   have e1 : (run P d0 (ops ++ [.save L] ++ ops')).1 = (run P (save P L (run P d0 ops).1).1 ops').1 := by
     rw [run_append, run_append, run_save]
   have hx := run_extends P ops' (save P L (run P d0 ops).1).1
@@ -271,7 +286,10 @@ theorem save_retry_after_late_failure (P : Params V) (d0 : Doc V) (chain0) (hb :
   exact hx.trans hy
 
 /-- **C09, "several saves in a row"**: from a savable document any number of saves in a row all
-    succeed, as long as the table stays within the reader's limit (each save allocates at most two numbers). -/
+    succeed, as long as the table stays within the reader's limit (each save allocates at most two numbers).
+    Hypotheses that are easy to overlook: `hx` — the cross-reference stream value a save leaves pending is itself
+    serialisable (`P.ok (P.xrefVal i)`: true of `SaveBytes.params` under `Bounds`, an assumption about `P` here); every
+    layout has `L.typed = true` (the typed reload of the trailer succeeds each time). -/
 theorem saves_in_a_row (P : Params V) (hx : ∀ i, P.ok (P.xrefVal i) = true) (d0 : Doc V) (chain0) (hb : BaseOK d0 chain0) :
     ∀ (Ls : List Layout), (∀ L ∈ Ls, L.Pos ∧ L.typed = true) → ∀ (d : Doc V), Inv d0 d → Savable P d →
       d.st.refs.length + 2 * Ls.length ≤ MAX_ID →
